@@ -335,18 +335,24 @@ func findIDInQueue[M interface{ ID() EventID }](q *queue[M], id EventID, autoID 
 		}
 
 		firstID, _ := strconv.ParseUint(q.buf[q.head].ID().String(), 10, 64)
-
-		pos := -1
-		if delta := id - firstID; id >= firstID {
-			if delta >= uint64(q.count) { //nolint:gosec // int always positive
-				return -1
-			}
-			pos = int(delta) //nolint:gosec // delta < q.count, which is an int
+		if id < firstID {
+			// The ID was evicted: everything buffered is newer.
+			return q.head
 		}
 
-		i := pos + q.head + 1
+		delta := id - firstID
+		if delta >= uint64(q.count) { //nolint:gosec // int always positive
+			return -1
+		}
+
+		i := q.head + int(delta) + 1 //nolint:gosec // delta < q.count, which is an int
 		if i >= len(q.buf) {
 			i -= len(q.buf)
+		}
+		if i == q.tail {
+			// The newest ID was given, so there is nothing to replay. This must not
+			// be returned as an index, as iterating from tail means iterating everything.
+			return -1
 		}
 
 		return i
@@ -365,7 +371,10 @@ func findIDInQueue[M interface{ ID() EventID }](q *queue[M], id EventID, autoID 
 		i++
 		if i == len(q.buf) {
 			i = 0
-		} else if i == q.tail {
+		}
+		// Checked after wrapping around, as tail may be 0: iterating
+		// from tail means iterating everything, not nothing.
+		if i == q.tail {
 			i = -1
 		}
 	}
